@@ -68,6 +68,8 @@ fn put_num(mut v: u64, put: &mut dyn FnMut(&[u8], &mut usize), n: &mut usize) {
 }
 
 pub fn install_abort_handler() {
+    // Miri does not model signal handlers; under Miri an abort is reported by Miri itself
+    #[cfg(not(miri))]
     unsafe {
         libc::signal(libc::SIGABRT, on_abort as *const () as libc::sighandler_t);
     }
@@ -239,7 +241,8 @@ pub fn run_worker(args: &Args, tier: &str, seed: u64) -> Report {
         one_input(&mut rep, "literal", 0, "literal", bytes, &["c02w".into(), "--hex".into(), h.to_string()]);
         return rep;
     }
-    let ctx = Ctx::new(tier, seed);
+    let lean = cfg!(miri) || args.has("--lean");
+    let ctx = if fam == "mutations" { Ctx::with_pool(tier, seed, !lean) } else { Ctx { tier: tier.to_string(), seed, pool: vec![] } };
     let total = ctx.count(&fam);
     // the case loop runs on a thread with the default main-thread stack size (8 MiB)
     let rep = std::thread::scope(|s| {
